@@ -6,7 +6,7 @@ the two stores of the fixed-metadata variant; (d) the Cranelift prelude (clifsym
 import json
 from z3 import (BitVec, BitVecVal, BoolVal, And, Or, Not, If, ULT, ULE, UGT, UGE, Select, Concat, Extract, simplify, is_true, BVAddNoOverflow)
 import common, mirsym, interp, libsym, obl, x86sym, clifsym, ref
-from mirsym import Slice, Ptr, V, Enum, LazyObj
+from mirsym import Slice, Ptr, V, Enum, LazyObj, Agg
 from ref import insn
 from obl import mval
 from common import Report
@@ -54,6 +54,60 @@ class FixedFields:
         self.buf = Slice(BitVec('self.1.2.ptr', 64), BitVec('self.1.2.len', 64), 'u8')
 
 
+def replay_c09(c):
+    """configuration-invariant counterexamples are replayed through the public API: configure, reload, and let a probe program read both slots"""
+    md = c.get('model')
+    if not md or 'new' not in md: return True, 'structural / native observation'
+    if max(md['old'] + md['new']) > 32000: return None, f'offsets of the model too large to replay natively: {md}'
+    d = Driver.get('dev'); r = d.request(dict(op='fixed_reload', old=md['old'], new=md['new'], reload=(md['meth'] == 'set_program'), timeout_s=20))
+    c['replay'] = dict(request=md, native=r)
+    if r.get('status') == 'panic': return True, f'native panic: {r.get("msg")}'
+    if r.get('status') != 'ok': return None, str(r)
+    bad = [x for x in r['transcript'] if not (x.endswith('as documented') or x.startswith('set_program: Ok'))]
+    return (len(bad) > 0), f'native: {r["transcript"]}'
+
+
+def fixed_config(rep, cands, timeout):
+    """the configuration invariant the execution obligations assume for EbpfVmFixedMbuff (stored offsets are the configured ones and the internal
+    buffer holds both 8-byte slots) is established by new() and re-established by every successful set_program(), from any previous configuration"""
+    mir, key = common.load_mir('std'); tt = common.type_table(); pr = obl.Prover(max(timeout, 60000), common.seed())
+    for meth in ('new', 'set_program'):
+        L = libsym.LibRun(mir, tt, timeout); name = f'fixed::{meth}'
+        try: paths = L.run('fixed', meth)
+        except mirsym.Unsupported as e:
+            pr.out['errors'].append(f'{name}: {e}'); continue
+        base = 1 if meth == 'new' else 2
+        a_off, a_end = L.args[base].t, L.args[base + 1].t; oks = 0
+        for p in paths:
+            pc_ = list(p.st.pc) + list(L.eng.ctx.get('lazy_ranges', [])) + [ULE(a_off, 1 << 40), ULE(a_end, 1 << 40)]
+            if p.kind != 'return': continue
+            res = p.payload
+            if not (isinstance(res, Enum) and simplify(res.disc() == 0).eq(BoolVal(True))):
+                r0, _ = pr.check(pc_, [res.disc() == 0]) if isinstance(res, Enum) else ('unsat', None)
+                if r0 != 'sat': continue
+                pc_ = pc_ + [res.disc() == 0]
+            if meth == 'new': vmv = res.payload[0][0]; mb = vmv.f[1] if isinstance(vmv, Agg) else None
+            else:
+                sv = p.st.aux.get('final_locals', {}).get(L.func.params[0][0]); mb = sv.fields.get(1) if isinstance(sv, LazyObj) else None
+            if mb is None: pr.out['errors'].append(f'{name}: cannot locate the metadata buffer in the post-state'); continue
+            f = mb.f if isinstance(mb, Agg) else [mb.fields.get(i) for i in range(3)]
+            FF = FixedFields()
+            so = f[0].t if f[0] is not None else FF.off_a; se = f[1].t if f[1] is not None else FF.off_b; bl = f[2].len if f[2] is not None else FF.buf.len
+            oks += 1
+            goal = And(so == a_off, se == a_end, bl == If(UGE(a_off, a_end), a_off, a_end) + 8)
+            r, m = pr.prove(f'{name}:configuration-invariant', pc_, goal, sample=f'{name}: Ok leaves data_offset/data_end_offset = the arguments and a buffer of max(offsets)+8 bytes, from any previous configuration')
+            if r == 'sat':
+                m = pr.refine([[ULE(a_off, 2000), ULE(a_end, 2000), ULE(FF.off_a, 2000), ULE(FF.off_b, 2000), Or(UGE(a_off, a_end + 8), UGE(a_end, a_off + 8))], [ULE(a_off, 30000), ULE(a_end, 30000), ULE(FF.off_a, 30000), ULE(FF.off_b, 30000)]], m)
+                cands.append(dict(role=f'wrapper/{name}/configuration-invariant', detail=f'{name} can return Ok with stored offsets / buffer length that do not match the configured offsets '
+                                  f'(old offsets {obl.mval(m, FF.off_a)}/{obl.mval(m, FF.off_b)}, new {obl.mval(m, a_off)}/{obl.mval(m, a_end)}, buffer {obl.mval(m, bl)} bytes)',
+                                  model=dict(meth=meth, old=[obl.mval(m, FF.off_a), obl.mval(m, FF.off_b)], new=[obl.mval(m, a_off), obl.mval(m, a_end)]), friendly=True))
+        if oks: pr.out['witnesses'] += 1
+        else: pr.out['errors'].append(f'{name}: no Ok path (vacuous)')
+        for fn in L.eng.used_funcs:
+            if fn in mir.funcs: pr.out['functions'][fn] = mir.fn_hash(fn)
+    rep.merge_counts(pr.out)
+
+
 def wrappers(rep, cands, timeout, feature):
     mir, key = common.load_mir(feature); tt = common.type_table(); pr = obl.Prover(max(timeout, 60000), common.seed()); pr.fresh_mode = True
     def addr(x): return x.base if isinstance(x, Slice) else (x.addr if isinstance(x, Ptr) else x.t)
@@ -85,7 +139,14 @@ def wrappers(rep, cands, timeout, feature):
                     r, m = pr.prove(f'{name}:no-panic', pc_ + inv, BoolVal(False))
                     if r == 'sat': cands.append(dict(role=f'wrapper/{name}/panic', detail=str(p.payload), model=None, friendly=True))
                     continue
-                if not calls: continue
+                if not calls:
+                    if vm == 'fixed' and p.kind == 'return' and kind == 'interp':
+                        # "on every execution": with the configuration invariant no execution ends before the engine is entered
+                        FF = FixedFields()
+                        r, m = pr.prove(f'{name}:engine-always-entered', pc_ + [ULE(FF.off_a, 1 << 40), ULE(FF.off_b, 1 << 40), FF.buf.len == If(UGE(FF.off_a, FF.off_b), FF.off_a, FF.off_b) + 8], BoolVal(False),
+                                        sample=f'{name}: under the configuration invariant no path returns before the engine runs')
+                        if r == 'sat': cands.append(dict(role=f'wrapper/{name}/returns-before-engine', detail=f'{name} can return without running the program although the buffer matches the configured offsets: {str(p.payload)[:120]}', model=None, friendly=True))
+                    continue
                 called += 1
                 pr.out['obligations'] += 1
                 if len(calls) != 1: cands.append(dict(role=f'wrapper/{name}/engine-called-{len(calls)}-times', detail='', model=None, friendly=True)); continue
@@ -221,6 +282,7 @@ def run():
     timeout = 20000 if common.tier() == 'quick' else 120000
     cands = []
     interp_prelude(rep, cands, timeout)
+    fixed_config(rep, cands, timeout)
     wrappers(rep, cands, timeout, 'std')
     wrappers(rep, cands, timeout, 'cranelift')
     jit_prologues(rep, cands, timeout)
@@ -232,7 +294,7 @@ def run():
                         'JIT prologue: argument registers symbolic; the relation to the wrapper arguments is the composition of the two obligation groups',
                         'native probes (r1 and buffer contents through the public API, 3 packet sizes x 4 offset pairs x 3 engines) are a concrete confirmation, not the deciding step']
     rep.bounds = dict(vm_kinds=4, engines=3, packets='all (symbolic pointer/length, incl. empty)', offsets='all non-overlapping pairs <= 2^40 (wrappers); 3 concrete pairs for the JIT prologue bytes')
-    return rep.finish(cands, None)
+    return rep.finish(cands, replay_c09)
 
 
 def replay(path):
